@@ -63,6 +63,9 @@ func genFlags(r *Rand, doc *GDoc, today ymd, force string) *gFlags {
 		recDates = append(recDates, ymd{rec.Y, rec.M, rec.D})
 	}
 	pickDate := func() ymd {
+		if r.P(1, 40) { // the ends of the calendar (`--after 9999-12-31`, `--before 0000-01-01`: D21)
+			return Pick(r, []ymd{{0, 1, 1}, {9999, 12, 31}, {0, 1, 2}, {9999, 12, 30}})
+		}
 		if len(recDates) > 0 && r.P(3, 4) {
 			a := Pick(r, recDates)
 			switch r.Weighted(4, 1, 1) {
@@ -119,17 +122,11 @@ func genFlags(r *Rand, doc *GDoc, today ymd, force string) *gFlags {
 		f.desc = "until"
 	case 4:
 		a := pickDate()
-		if _, ok := a.plus(1); !ok {
-			a = ymd{2000, 1, 1}
-		}
 		add("--after", ds(a), "after="+a.String())
 		f.dateOK = func(x ymd) bool { return cmpYMD(x, a) > 0 }
 		f.desc = "after"
 	case 5:
 		a := pickDate()
-		if _, ok := a.plus(-1); !ok {
-			a = ymd{2000, 1, 1}
-		}
 		add("--before", ds(a), "before="+a.String())
 		f.dateOK = func(x ymd) bool { return cmpYMD(x, a) < 0 }
 		f.desc = "before"
